@@ -64,8 +64,14 @@ where
 			// string from a &str reference, which probably explains the
 			// difference.
 			let mut de = serde_json::Deserializer::from_reader(BufReader::new(r));
-			while de.end().is_err() {
-				output.transcode_from(&mut de)?;
+			loop {
+				match de.end() {
+					Ok(()) => break,
+					// Don't mistake a failing reader for the start of
+					// another document.
+					Err(err) if err.is_io() => return Err(err.into()),
+					Err(_) => output.transcode_from(&mut de)?,
+				}
 			}
 		}
 	}
